@@ -334,4 +334,65 @@ theorem chunks_pieces (split : Seq → Int) (Cut : Seq → Seq → Prop) (hs : S
     rw [h1] at hp
     exact hp
 
+/-- the file is: a run of end-of-line bytes, chunk 0, a run of end-of-line bytes, chunk 1, …, a run
+of end-of-line bytes (runs may be empty) -/
+inductive StripJoin : List Seq → Seq → Prop
+  | nil {e : Seq} : AllEol e → StripJoin [] e
+  | cons {e c rest : Seq} {cs : List Seq} : AllEol e → StripJoin cs rest → StripJoin (c :: cs) (e ++ c ++ rest)
+
+theorem allEol_append {a b : Seq} (ha : AllEol a) (hb : AllEol b) : AllEol (a ++ b) := by
+  intro c hc
+  rcases List.mem_append.mp hc with h | h
+  · exact ha c h
+  · exact hb c h
+
+theorem StripJoin.prepend {e t : Seq} {cs : List Seq} (he : AllEol e) (h : StripJoin cs t) :
+    StripJoin cs (e ++ t) := by
+  cases h with
+  | nil h0 => exact StripJoin.nil (allEol_append he h0)
+  | cons h0 hr =>
+    rename_i e0 c rest cs'
+    have := StripJoin.cons (c := c) (allEol_append he h0) hr
+    simpa [List.append_assoc] using this
+
+theorem pieces_stripJoin {Cut : Seq → Seq → Prop} {cs : List Seq} {t : Seq} (h : Pieces Cut cs t) :
+    StripJoin cs t ∧ ∀ c ∈ cs, c ≠ [] := by
+  induction h with
+  | nil h0 => exact ⟨StripJoin.nil h0, by simp⟩
+  | @lastStripped t hne =>
+    obtain ⟨e, he, hall⟩ := stripEol_decomp t
+    constructor
+    · have := StripJoin.cons (e := []) (c := stripEol t) allEol_nil (StripJoin.nil hall)
+      simp only [List.nil_append] at this
+      rw [← he] at this
+      exact this
+    · intro c hc; simp at hc; rw [hc]; exact hne
+  | @lastRaw t hne =>
+    constructor
+    · have := StripJoin.cons (e := []) (c := t) allEol_nil (StripJoin.nil allEol_nil)
+      simpa using this
+    · intro c hc; simp at hc; rw [hc]; exact hne
+  | @cut a b cs _ hne _ ih =>
+    obtain ⟨e, he, hall⟩ := stripEol_decomp a
+    constructor
+    · have := StripJoin.cons (e := []) (c := stripEol a) allEol_nil (ih.1.prepend hall)
+      simp only [List.nil_append] at this
+      rw [← List.append_assoc, ← he] at this
+      exact this
+    · intro c hc
+      simp only [List.mem_cons] at hc
+      rcases hc with rfl | hc
+      · exact hne
+      · exact ih.2 c hc
+  | @skip a b cs _ hnil _ ih =>
+    exact ⟨ih.1.prepend (allEol_of_strip_nil hnil), ih.2⟩
+
+theorem range_map_getD {α β : Type} (cs : List α) (d : α) (f : α → β) :
+    (List.range cs.length).map (fun k => f (cs.getD k d)) = cs.map f := by
+  apply List.ext_getElem
+  · simp
+  · intro i h1 h2
+    simp at h1
+    simp [h1]
+
 end ObiVerif.Chunk
